@@ -24,7 +24,8 @@ package main
 //     field path from one, or from the variable of an enclosing effect loop):
 //     the loop rebuilds the list — `let mut acc := []; for it in xs do let mut
 //     x := it; …; acc := acc ++ [x]` — and stores it back (`xs := acc`).  Such a
-//     loop must not contain break, continue or return.  What this assumes: the
+//     loop must not contain break, continue or return, and its body must not
+//     mention the variable the slice hangs from (it would see the old list).  What this assumes: the
 //     pointees of one slice are pairwise distinct objects (a slice that lists
 //     the same pointer twice would see the first write again at the second
 //     visit in Go, not here), and nobody else holds them.  Every such loop is
@@ -408,6 +409,18 @@ func (f *g2lFn) rangeEff(x *ast.RangeStmt, ind int) ([]string, bool) {
 	}
 	if g2lHasBranch(x.Body.List, token.BREAK) || g2lHasBranch(x.Body.List, token.CONTINUE) || g2lHasReturn(x.Body.List) {
 		f.fail("break, continue or return in the loop over `%s`, which writes through its elements", f.src(x.X))
+	}
+	// the body sees the slice as it was before the loop until the list is stored back:
+	// it must not look at the variable the slice hangs from
+	if root := f.rootOf(x.X, false); root != nil {
+		for _, s := range x.Body.List {
+			ast.Inspect(s, func(n ast.Node) bool {
+				if id, ok := n.(*ast.Ident); ok && f.g.info.Uses[id] == root {
+					f.fail("the body of the loop over `%s`, which writes through its elements, mentions `%s` (it would see the slice as it was before the loop)", f.src(x.X), id.Name)
+				}
+				return true
+			})
+		}
 	}
 	var k *types.Var
 	if kid, ok := x.Key.(*ast.Ident); ok && kid.Name != "_" {
